@@ -93,6 +93,32 @@ fn repl_mail(rng: &mut Rng) -> Scenario {
     }
 }
 
+/// One message whose value is nested N tuples deep (a Cons list of N ints): nothing about it is
+/// unusual for the native host; quiver-web's transport encodes every message as JSON text, three
+/// levels of JSON per tuple level, and decodes with serde_json's default nesting limit of 128.
+fn deep_value(rng: &mut Rng) -> Scenario {
+    let n = *rng.pick(&[8u64, 30, 45, 60, 120]);
+    let mut h = crate::rng::Fnv::default();
+    h.u64(0xdee9);
+    h.u64(n);
+    let src = format!(
+        "'list = Nil | Cons['int, ^], mk = #['int, 'list] {{ | =[0, acc] => acc | =[n, acc] => [[n, 1] __integer_subtract__, Cons[n, acc]] ^ }}, sum = #['list, 'int] {{ | =[Nil, acc] => acc | =[Cons[h, t], acc] => [t, [acc, h] __integer_add__] ^ }}, rc = @#{{ l = !#'list, [l, 0] sum }}, l = [{n}, Nil] mk, l rc, !rc"
+    );
+    Scenario {
+        family: "c04-deep-value".into(),
+        ops: vec![ClientOp::Line { session: 0, src }],
+        modules: vec![],
+        files: Default::default(),
+        timing: false,
+        io: false,
+        fixed_faults: Default::default(),
+        expect: serde_json::json!({ "deep": (n * (n + 1) / 2).to_string() }),
+        shape: h.0,
+        est_len: 120,
+        min_quantum: 0,
+    }
+}
+
 impl Property for C04 {
     fn id(&self) -> &'static str {
         "C04"
@@ -123,6 +149,9 @@ impl Property for C04 {
     fn generate(&self, rng: &mut Rng, _tier: Tier) -> Scenario {
         if rng.chance(1, 14) {
             return repl_mail(rng);
+        }
+        if rng.chance(1, 25) {
+            return deep_value(rng);
         }
         let mut defs: Vec<String> = vec![SPIN.into(), COL.into(), COLT.into(), SND.into(), FWD.into(), SND2.into(), SRV.into(), CLI.into(), COL2.into(), FA.into(), VIC.into()];
         let fspin = *rng.pick(&[3u32, 12, 30]);
@@ -384,6 +413,13 @@ impl Property for C04 {
                     v.push(Violation::new("C04", "lost-wakeup", "chain-link-not-failed", format!("process {path} ended with {res}; every link of the await chain must fail with the victim's error"), r.steps));
                     break;
                 }
+            }
+            return v;
+        }
+        if let Some(want) = scn.expect.get("deep").and_then(|x| x.as_str()) {
+            match r.outs.last() {
+                Some(Out::Value(s)) if s == want => {}
+                other => v.push(Violation::new("C04", "exactly-once", "deeply-nested-message", format!("the receiver of a deeply nested message yielded {:?}, expected {want}", other), r.steps)),
             }
             return v;
         }
